@@ -231,6 +231,9 @@ EvalPath(segs, i, obj, st) ==
                     [] s.t = "i" -> IntV(s.i)
                     [] s.t = "p" -> EvalPath(s.p, 2, Resolve(s.p[1].v, st), st)
        IN IF IsErr(key) THEN key
+          \* a dotted index is syntax only where the environment allows it (the parser refuses it otherwise;
+          \* the focus keeps such paths where they are reached first)
+          ELSE IF s.t = "i" /\ "sh" \in DOMAIN s /\ ~("shorthand" \in DOMAIN st.cfg /\ st.cfg.shorthand) THEN Err("LiquidSyntaxError")
           ELSE IF UndefErr(key, st, "key") THEN Err("UndefinedError")
           ELSE IF obj.t = "blockdrop"
                THEN (IF key.t = "str" /\ key.v = "super"
